@@ -32,3 +32,48 @@ def real_part(p):
         return dp.ListValue(condition=real_cond(p["cond"]), label=lab)
     return dp.MapOrListValue(condition=real_cond(p["cond"]), list_condition=real_cond(p["lcond"]),
                              map_condition=real_cond(p["mcond"]), label=lab)
+
+
+def _prim_of(p):
+    """the primitive a coerced part stands for (inverse of Path.tla Coerce), or None"""
+    def eqv(c, datum):
+        if c["t"] == "leaf" and c["datum"] == datum and c["pre"] == "none" and c["fn"] == "equal_to" \
+                and len(c["kw"]) == 1 and c["kw"][0]["name"] == "value":
+            return c["kw"][0]["v"]
+        return None
+
+    if p["pk"] == "map" and p["label"]["k"] == "none":
+        v = eqv(p["cond"], "key")
+        if v is not None and v["k"] in ("str", "float"):
+            return dec_val(v)
+    if p["pk"] == "mol" and p["cond"]["t"] == "null" and p["label"]["k"] == "none":
+        a, b = eqv(p["lcond"], "index"), eqv(p["mcond"], "key")
+        if a is not None and b is not None and a == b and a["k"] in ("int", "bool"):
+            return dec_val(a)
+    return None
+
+
+def real_path(pt):
+    import valida.datapath as dp
+
+    parts = []
+    for p in pt["parts"]:
+        prim = _prim_of(p) if pt["concrete"] else None
+        parts.append(prim if prim is not None else real_part(p))
+    path = dp.DataPath(*parts)
+    for m in (pt["dt"], pt["mt"]):
+        if m != "none":
+            path = getattr(path, m)()
+    return path
+
+
+def real_rule(rt):
+    import valida
+    import valida.casting as vc
+
+    cast = None
+    if rt["cast"]:
+        cast = {}
+        for frm, name in rt["cast"]:
+            cast[{3: str}[frm]] = vc.cast_string_to_bool if name == "bool" else int
+    return valida.Rule(path=real_path(rt["path"]), condition=real_cond(rt["cond"]), cast=cast)
